@@ -548,6 +548,48 @@ pub fn range_edge_text(k: FloatKind, rx: Radices, point: u8, exp_char: u8) -> Bo
         .boxed()
 }
 
+/// Values spread through the binades just inside and beyond the finite range: magnitudes in
+/// [2^(emax-1), 2^(emax+5)) (most of them overflow: the exact answer is an infinity, never NaN)
+/// and magnitudes up to 2^6 times below the smallest subnormal (the exact answer is a signed zero or
+/// the smallest subnormal), written with few or many digits.
+pub fn beyond_range_text(k: FloatKind, rx: Radices, point: u8, exp_char: u8) -> BoxedStrategy<(Vec<u8>, &'static str)> {
+    let dpb = rx.digits_per_base().unwrap() as i64;
+    let emax1 = (k.max_exp_field() as i64 - 1) - k.bias() + 1; // 2^emax1 is the first power of two out of range
+    (any::<u64>(), -2i64..5, prop_oneof![3 => 1usize..6, 3 => 6usize..25, 1 => 25usize..80, 1 => Just(10_000usize)], layout(), any::<bool>(), prop_oneof![4 => Just(false), 1 => Just(true)], 1i64..7)
+        .prop_map(move |(m, j, keep, lay, neg, under, down)| {
+            if under {
+                let (mut c, _) = value_canon(k, rx, 1 + (m % 3), 400);
+                c.eb -= down;
+                c.neg = neg;
+                return (render_canon(&c, rx, point, exp_char, &lay), "below-subnormal");
+            }
+            // integer m' * 2^sh with bit length emax1 + j + 1
+            let m = m | (1 << 63);
+            let v = Big::from_u64(m).shl((emax1 + j + 1 - 64) as u64);
+            let digits = v.to_digits(rx.mant);
+            let n = keep.min(digits.len()).max(1);
+            let mut sig = digits[..n].to_vec();
+            if n < digits.len() && m & 1 == 1 {
+                // round the kept prefix up now and then so that the text is not always a truncation
+                let mut i = n;
+                while i > 0 {
+                    if (sig[i - 1] as u32) + 1 < rx.mant {
+                        sig[i - 1] += 1;
+                        break;
+                    }
+                    sig[i - 1] = 0;
+                    i -= 1;
+                }
+                if i == 0 {
+                    sig.insert(0, 1);
+                }
+            }
+            let c = Canon { neg, sig, eb: (digits.len() - n) as i64 * dpb };
+            (render_canon(&c, rx, point, exp_char, &lay), "beyond-range")
+        })
+        .boxed()
+}
+
 // ---------------------------------------------------------------------------------------------
 // integers (erased: two's complement, sign-extended to 128 bits)
 
